@@ -16,6 +16,7 @@ import (
 type loopWrites struct {
 	refs    map[string][]Term // key -> written object references (pre-state terms)
 	unknown map[string]bool   // key written through a reference that is not loop-invariant
+	ownedOnly map[string]bool // key (also) written through locally owned slices (fresh backing arrays only)
 }
 
 // invariantValue evaluates an SSA value in the pre-loop state if it cannot change inside the loop.
@@ -83,10 +84,16 @@ func (ex *Exec) invariantValue(v ssa.Value, li *loopInfo, pre *State, cells map[
 // loopWriteSet collects, per heap key, the objects written by the loop body.
 func (ex *Exec) loopWriteSet(li *loopInfo, pre *State, cells map[*ssa.Alloc]bool, keys map[string]bool, all bool) *loopWrites {
 	c := ex.c
-	lw := &loopWrites{refs: map[string][]Term{}, unknown: map[string]bool{}}
+	lw := &loopWrites{refs: map[string][]Term{}, unknown: map[string]bool{}, ownedOnly: map[string]bool{}}
 	add := func(key string, v ssa.Value, isSlice bool) {
 		t, ok := ex.invariantValue(v, li, pre, cells, keys, all, 0)
 		if !ok {
+			if isSlice && ex.ownedSliceValue(v) {
+				// a slice variable that only ever holds nil, make(...) or append(itself, ...): its backing
+				// array was allocated by this function, so no object that existed at entry is written
+				lw.ownedOnly[key] = true
+				return
+			}
 			lw.unknown[key] = true
 			return
 		}
@@ -229,7 +236,12 @@ func (ex *Exec) assumeLoopFrame(lw *loopWrites, key string, pre, post *State) {
 		return // 0-dimensional (globals)
 	}
 	var conds []string
-	conds = append(conds, fmt.Sprintf("(< r %s)", pre.alloc.S))
+	if lw.ownedOnly[key] {
+		// objects allocated by this function (possibly before the loop) may be written: only entry-time objects are framed
+		conds = append(conds, "(< r alloc0)")
+	} else {
+		conds = append(conds, fmt.Sprintf("(< r %s)", pre.alloc.S))
+	}
 	for _, t := range lw.refs[key] {
 		conds = append(conds, fmt.Sprintf("(distinct r %s)", t.S))
 	}
@@ -249,4 +261,76 @@ func joinStr(xs []string, sep string) string {
 		out += x
 	}
 	return out
+}
+
+// ownedSliceValue: v is a load of a local slice variable whose every assignment is nil, make(...),
+// a composite literal, or append(<the same variable>, ...).
+func (ex *Exec) ownedSliceValue(v ssa.Value) bool {
+	ld, ok := v.(*ssa.UnOp)
+	if !ok || ld.Op != token.MUL {
+		return false
+	}
+	a, ok := ld.X.(*ssa.Alloc)
+	if !ok {
+		return false
+	}
+	refs := a.Referrers()
+	if refs == nil {
+		return false
+	}
+	for _, r := range *refs {
+		switch r := r.(type) {
+		case *ssa.UnOp, *ssa.DebugRef:
+			continue
+		case *ssa.MakeClosure:
+			// captured: the closure may only read the variable
+			fn := r.Fn.(*ssa.Function)
+			for i, b := range r.Bindings {
+				if b != a || i >= len(fn.FreeVars) {
+					continue
+				}
+				if frefs := fn.FreeVars[i].Referrers(); frefs != nil {
+					for _, fr := range *frefs {
+						switch fr.(type) {
+						case *ssa.UnOp, *ssa.DebugRef:
+						default:
+							return false
+						}
+					}
+				}
+			}
+			continue
+		case *ssa.Store:
+			if r.Addr != a {
+				return false // the address itself is stored somewhere
+			}
+		default:
+			return false
+		}
+		st := r.(*ssa.Store)
+		switch x := st.Val.(type) {
+		case *ssa.Const:
+			if x.Value != nil {
+				return false
+			}
+		case *ssa.MakeSlice:
+		case *ssa.Slice:
+			// slicing a fresh array literal ([]T{...}) : new(array)[:]
+			if al, ok := x.X.(*ssa.Alloc); !ok || !al.Heap {
+				return false
+			}
+		case *ssa.Call:
+			b, ok := x.Call.Value.(*ssa.Builtin)
+			if !ok || b.Name() != "append" {
+				return false
+			}
+			src, ok := x.Call.Args[0].(*ssa.UnOp)
+			if !ok || src.Op != token.MUL || src.X != a {
+				return false
+			}
+		default:
+			return false
+		}
+	}
+	return true
 }
